@@ -335,7 +335,11 @@ def two_variant(g):
     """Result / Option / ControlFlow have two variants: `== Err` is `!= Ok` (one canonical variant per type)"""
     m = re.fullmatch(r"(discr\(.*\)) (==|!=) (Err|None|Break)", g)
     if m:
-        return "%s %s %s" % (m.group(1), "!=" if m.group(2) == "==" else "==", TWO[m.group(3)])
+        g = "%s %s %s" % (m.group(1), "!=" if m.group(2) == "==" else "==", TWO[m.group(3)])
+    # `v.last()` / `v.first()` is Some exactly when v is not empty
+    m = re.fullmatch(r"discr\((?:last|first)\(([^()]*(?:\([^()]*\))?[^()]*)\)\) (==|!=) Some", g)
+    if m:
+        return ("!(is_empty(%s))" if m.group(2) == "==" else "is_empty(%s)") % m.group(1)
     return g
 
 
